@@ -19,6 +19,8 @@ RULES = {
              "`status` and/or `votes` changed; PROPOSALS entries are never removed",
     "R05.5": "ids: next_id saves and returns (stored count or 0) + 1 exactly; the creating write and the proposer's ballot use "
              "that id; nothing else writes PROPOSAL_COUNT",
+    "R05.8": "a status once observed as Rejected-by-expiry never moves again: a ballot is recorded only while the proposal has "
+             "not expired, judged by the same is_expired(env.block) the status functions use (shared with C06 R06.2)",
     "R05.7": "fixed at creation, as observed: Proposal / ListProposals / ReverseProposals report the threshold as "
              "stored.threshold.to_response(stored.total_weight) of the stored proposal - not of the live configuration or group "
              "(shared with C03 R03.4)",
@@ -169,6 +171,18 @@ def run(ctx):
         if o.rule == "R03.4" and o.key.endswith("/threshold"):
             ctx.ob("R05.7", o.key, True if o.status == "discharged" else (None if o.status == "undecided" else False),
                    detail="; ".join(o.details), sites=o.sites, sample=o.sample)
+    # R05.8: "Open to Rejected" by expiry is final only if no ballot is admitted once the proposal has expired (shared with C06 R06.2)
+    from . import C06
+    sub6 = type(ctx)(ctx.pid, ctx.facts, ctx.engine, ctx.tier, ctx.tree_hash)
+    C06.run(sub6)
+    n8 = 0
+    for k in sub6.order:
+        o = sub6.obs[k]
+        if o.rule == "R06.2" and not o.key.startswith(("anchor", "floor")):
+            n8 += 1
+            ctx.ob("R05.8", o.key, True if o.status == "discharged" else (None if o.status == "undecided" else False),
+                   detail="; ".join(o.details), sites=o.sites, sample=o.sample)
+    ctx.floor("R05.8", "vote admissions examined", n8, 2)
     # other entry points must not touch proposals
     for crate in CONTRACTS:
         eps = entry_points(ctx.facts, crate)
